@@ -40,6 +40,50 @@ pub struct Ctx {
     pub verbose: bool,
     /// multiplier of the CPU budget (hang confirmation replays use 2)
     pub cpu_scale: i64,
+    /// parsed containers per fixture (C06)
+    pub parts: std::collections::HashMap<String, crate::image::Parts>,
+    pub sites: std::collections::HashMap<String, std::sync::Arc<Vec<crate::faultgen::SiteGroup>>>,
+    pub c06_layout: Option<std::sync::Arc<crate::c06::Layout>>,
+    pub rotation: Option<std::sync::Arc<Vec<usize>>>,
+}
+
+impl Ctx {
+    /// The order in which C07/C08 runs visit the corpus: every fixture at least once per
+    /// round, feature-rich ones (tables, merged regions, VBA, many sheets) several times, so
+    /// that the caches and second access paths only they have get a fair share of histories.
+    pub fn rotation(&mut self) -> std::sync::Arc<Vec<usize>> {
+        if let Some(r) = &self.rotation {
+            return r.clone();
+        }
+        let mut v = Vec::new();
+        for i in 0..self.corpus.len() {
+            let fx = self.corpus[i].clone();
+            let m = self.models.get(&fx);
+            let mut w = 1;
+            if !m.table_names.is_empty() {
+                w += 5;
+            }
+            if fx.name.contains("merge") {
+                w += 2;
+            }
+            if fx.name.ends_with(".xlsm") || fx.name == "vba.xlsm" {
+                w += 1;
+            }
+            if m.sheet_names.len() >= 3 {
+                w += 1;
+            }
+            for _ in 0..w {
+                v.push(i);
+            }
+        }
+        let r = std::sync::Arc::new(v);
+        self.rotation = Some(r.clone());
+        r
+    }
+    /// CPU time of a clean open + read of the fixture (basis of the termination budget).
+    pub fn clean_ns(&mut self, fx: &Fixture) -> i64 {
+        self.models.get(fx).clean_cpu_ns
+    }
 }
 
 #[derive(Clone, Copy, Debug, PartialEq, Eq)]
@@ -97,17 +141,19 @@ pub fn gen_delivery(ch: &mut Chooser, cfg: Cfg, image_len: usize) -> Delivery {
 /// Place `n` error faults inside operations that actually perform I/O, using the event counts
 /// of a dry pass with the same delivery (so none is wasted while idle or after EOF); extra
 /// weight on the first and last event of a call.
-pub fn place_faults(ch: &mut Chooser, op_events: &[u32], n: usize, prefer_after: Option<usize>) -> Vec<PlacedFault> {
+pub fn place_faults(ch: &mut Chooser, op_events: &[u32], n: usize, prefer: &[usize]) -> Vec<PlacedFault> {
     let io_ops: Vec<usize> = op_events.iter().enumerate().filter(|(_, e)| **e > 0).map(|(i, _)| i).collect();
     let post_open: Vec<usize> = io_ops.iter().copied().filter(|i| *i > 0).collect();
+    // calls worth hitting: cache loads (a failure must not leave a half-filled cache behind) and
+    // the first I/O call after a cache load or an option change
+    let prefer: Vec<usize> = prefer.iter().copied().filter(|i| io_ops.contains(i)).collect();
     let mut out = Vec::new();
     if io_ops.is_empty() {
         return out;
     }
     for _ in 0..n {
-        let op = if let (Some(p), true) = (prefer_after, ch.chance(1, 3)) {
-            // bias: the first I/O call after a cache load / header change
-            post_open.iter().copied().find(|i| *i > p).unwrap_or(*ch.pick(&io_ops))
+        let op = if !prefer.is_empty() && ch.chance(1, 2) {
+            *ch.pick(&prefer)
         } else if !post_open.is_empty() && !ch.chance(15, 100) {
             *ch.pick(&post_open)
         } else {
@@ -128,6 +174,26 @@ pub fn place_faults(ch: &mut Chooser, op_events: &[u32], n: usize, prefer_after:
         out.push(PlacedFault { op: op as u32, rel, kind });
     }
     out
+}
+
+/// Call numbers (1-based; 0 is the open call) a fault is preferably placed in: every cache
+/// load and option change, and the call right after each of them.
+pub fn preferred_calls(ops: &[crate::wb::Op]) -> Vec<usize> {
+    use crate::wb::Op;
+    let mut v = Vec::new();
+    for (i, o) in ops.iter().enumerate() {
+        match o {
+            Op::LoadTables | Op::LoadMerged => {
+                v.push(i + 1);
+                v.push(i + 1);
+                v.push(i + 2);
+            }
+            Op::SetHeader(_) => v.push(i + 2),
+            _ => {}
+        }
+    }
+    v.retain(|c| *c <= ops.len());
+    v
 }
 
 pub fn spec_hash(spec: &RunSpec) -> u64 {
